@@ -33,6 +33,7 @@ import (
 	"strconv"
 	"strings"
 	"sync"
+	"time"
 
 	"github.com/AliceO2Group/Control/core/task"
 	"github.com/AliceO2Group/Control/core/task/channel"
@@ -558,6 +559,7 @@ func childRound(args []string) {
 		fmt.Fprintln(os.Stderr, "c05-round: want one argument")
 		os.Exit(3)
 	}
+	probe()
 	in, err := sx.Parse(args[0])
 	if err != nil {
 		fmt.Fprintln(os.Stderr, err)
@@ -568,6 +570,9 @@ func childRound(args []string) {
 		fmt.Fprintln(os.Stderr, err)
 		os.Exit(3)
 	}
+	// A panicking offer goroutine runs its deferred WaitGroup.Done() first, so the handler can
+	// return before the runtime has printed the panic and ended the process: give it the time.
+	time.Sleep(400 * time.Millisecond)
 	fmt.Println(wrap(p))
 }
 
